@@ -3,7 +3,7 @@
 From Coq Require Import List NArith ZArith Bool Arith Lia.
 From SK Require Import lib.Tok lib.LGraph lib.Mono.
 From SK Require model.C06_Model model.C11_Model.
-From SK Require Import model.C03_Model model.C05_Model proof.C05_Proof proof.C05_Glue proof.C05_Pipe proof.C05_Prep.
+From SK Require Import model.C03_Model model.C05_Model proof.C05_Proof proof.C05_Glue proof.C05_Pipe proof.C05_Prep proof.C05_Comp proof.C05_Main.
 Import ListNotations.
 
 (** sz: Suzuki-type rule [C:1][Br:2].[B:3][C:4]>>[C:1][C:4].[B:3][Br:2] applied backwards to CCC(C)C.OB(O)Br (the
@@ -85,4 +85,13 @@ Example pipeline_invariant_nonvacuous :
   prepare true true sz_tpl = Some sz_p /\ p_flag sz_p = false /\
   pipeline true true false 0%N (relabel sz_pi sz_host) (relabel sz_sg sz_tpl)
   = option_map (map (relabel sz_pi)) (pipeline true true false 0%N sz_host sz_tpl).
+Proof. repeat split; vm_compute; reflexivity. Qed.
+
+(** every strategy: the disulfide case (component-aware search smaller than the exhaustive one) renumbered *)
+Example all_strategies_nonvacuous :
+  length (glued_of 1%N ds_host ds_p) = 2%nat /\ length (glued_of 0%N ds_host ds_p) = 3%nat /\ p_flag ds_p = false /\
+  glued_of 1%N (relabel sz_pi ds_host) (relabel_prep sz_sg ds_p) = map (relabel sz_pi) (glued_of 1%N ds_host ds_p) /\
+  glued_of 2%N (relabel sz_pi ds_host) (relabel_prep sz_sg ds_p) = map (relabel sz_pi) (glued_of 2%N ds_host ds_p) /\
+  pipeline false true false 1%N (relabel sz_pi ds_host) (relabel sz_sg ds_tpl)
+  = option_map (map (relabel sz_pi)) (pipeline false true false 1%N ds_host ds_tpl).
 Proof. repeat split; vm_compute; reflexivity. Qed.
